@@ -1,5 +1,5 @@
 """C05 Layout preservation and edit locality (only the structural clauses; see DESIGN.md section 3, C05)"""
-from . import genrules
+from . import genrules, plumbing
 
 
 def run(chk):
@@ -11,4 +11,5 @@ def run(chk):
     genrules.r05_new(chk)
     genrules.expansion_diffs(chk, "R05-shipped", lambda k: ("[stringify]" in k) or "[new]" in k,
                              "generated stringify/new items identical (canonical form) to the generator's output")
+    plumbing.r05_plumb(chk)
     chk.assumptions += ["not decided: that every token lands on its input line, and edit locality (line arithmetic over runtime counts)"]
